@@ -163,7 +163,7 @@ def gen(tier, seed, info):
                         fill = "G:1:0 P:%s " % hexs("".join(chr(33 + i % 90) for i in range(cols)))
                         yield "%d %d 1 0 0 %sc:%s G:1:%d E:%d:%d G:0:0" % (lines, cols, fill, rvpen, c, n, me)
     # 4. random in-range sequences
-    nseq = 6000 if quick else 400000
+    nseq = 6000 if quick else 800000
     pens = ["-", "rv=1", "rv=0", "bg=4", "fg=1,bg=2,rv=1", "bg=200", "rv=1,bg=17#102030", "b=1,u=1", "bg=-1", "fg=9"]
     for _ in range(nseq):
         lines, cols = rnd.choice(SIZES)
